@@ -65,6 +65,8 @@ RULES = {
  "C12": [
   ("KF-C12-1", "statement-comments-printed-at-column-zero", r'^comments/not-a-gofmt-fixed-point/comment-indentation$',
    "a comment group attached to a statement with SetComments is printed at column 0 instead of at the indentation of its statement: the written text is not a fixed point of gofmt (the repository's own expected strings pin this layout)", "internal/go/printer/nodes.go:1321 statement-comment hook prints the position-less comment text as is"),
+  ("KF-C12-2", "exposed-composite-literal-in-statement-header-not-parenthesised", r'^emitted-code-does-not-parse/[a-z-]+/literal-exposed/',
+   "the tree the builder holds for a composite literal of a named type exposed in an if / for / switch / range header has no parentheses, so the written text does not parse back (same root cause as KF-C02-4: only binary operands and switch tags reached through plain selector chains are protected)", "internal/target/util/util_gengo.go:85 CheckParenExpr and its three call sites"),
  ],
  "C03": [
   ("KF-C03-1", "typed-constant-result-reported-untyped", r'^type (int|int8|uint8|MyInt) reported as untyped int \[constant-operands',
